@@ -46,7 +46,7 @@ REACH = [("yamlpath/commands/yaml_set.py", "write_output_document,save_to_file,s
          ("yamlpath/commands/yaml_merge.py", "write_output_document,validateargs", "yaml_merge write-out"),
          ("yamlpath/commands/eyaml_rotate_keys.py", "main", "eyaml_rotate_keys.main")]
 SIZES = {"quick": dict(a=1600, b=128), "thorough": dict(a=12000, b=500)}
-REQUIRED_COUNTERS = ["a_cases", "b_scenarios", "faults_oserror", "faults_kill", "faults_write_offset", "baseline_backup_checked", "faults_serializer_assertion", "b_symlinked_targets", "b_stale_backup_with_equal_stat"]
+REQUIRED_COUNTERS = ["a_existing_output/tilde", "a_cases", "b_scenarios", "faults_oserror", "faults_kill", "faults_write_offset", "baseline_backup_checked", "faults_serializer_assertion", "b_symlinked_targets", "b_stale_backup_with_equal_stat"]
 EXHAUSTIVE_NOTE = "every I/O event index k of each explored scenario instance (OSError and kill), plus 4 byte offsets of the dump"
 
 
@@ -141,19 +141,37 @@ def part_a(ctx, rng, box):
         else:
             files["r.yaml"] = "zz: 1\n"
             files["out.yaml"] = "precious: existing output\n"
-            argv = ["-S", "-o", "out.yaml", "t.yaml", "r.yaml"]
+            # the existing output file under several spellings of its name (HOME is the sandbox for the run)
+            spelling = rng.choice(["out.yaml", "./out.yaml", os.path.join(box, "out.yaml"), "~/out.yaml", "../%s/out.yaml" % os.path.basename(box)])
+            argv = ["-S", rng.choice(["-o", "--output"]), spelling, "t.yaml", "r.yaml"]
+            if rng.random() < 0.3:
+                argv = ["-S", "--output=" + spelling, "t.yaml", "r.yaml"]
+            ctx.counters["a_existing_output/" + ("tilde" if spelling[0] == "~" else "other")] = ctx.counters.get(
+                "a_existing_output/" + ("tilde" if spelling[0] == "~" else "other"), 0) + 1
     fresh(box, files)
     before = listing(box)
     cwd = os.getcwd()
     os.chdir(box)
+    home = os.environ.get("HOME")
+    os.environ["HOME"] = box
     try:
         r = cli.run(tool, argv, sandbox=box)
     finally:
         os.chdir(cwd)
+        if home is None:
+            os.environ.pop("HOME", None)
+        else:
+            os.environ["HOME"] = home
     ctx.evaluations += 1
     ctx.counters["a_cases"] = ctx.counters.get("a_cases", 0) + 1
     ctx.counters["a/" + cause] = ctx.counters.get("a/" + cause, 0) + 1
     case = {"part": "A", "cause": cause, "tool": tool, "argv": argv, "files": files, "backup": backup}
+    tilde = cause == "existing-output" and any(a.startswith(("~", "--output=~")) for a in argv)
+    if r["exc"] and tilde and r["exc"].startswith("FileNotFoundError"):
+        # the literal directory "~" does not exist: the interpreter ends such a run with a traceback and status 1 - a
+        # non-zero end all the same (how gracefully a tool fails is not this property's subject)
+        ctx.count("a_existing_output/tilde_ended_in_FileNotFoundError")
+        r = dict(r, exc=None, code=1)
     if r["exc"]:
         ctx.violation("A/crash/%s" % cause, {"case": case, "summary": r["exc"][:200]})
         return
@@ -167,6 +185,8 @@ def part_a(ctx, rng, box):
         ctx.violation("A/files-changed-after-failure/%s" % cause, {"case": case, "summary": "exit %d but %r" % (r["code"], [c[0] for c in changed][:5])})
         return
     writes = [e for e in r["trace"] if (e["ev"] == "open" and e.get("write")) or e["ev"] in cli.WRITE_EVENTS]
+    if tilde:
+        return      # read literally, ~/out.yaml lies in a directory that does not exist: the failure IS the attempt to open it
     if writes:
         ctx.violation("A/write-intent-before-failure/%s" % cause, {"case": case, "summary": repr(writes)[:250]})
 
